@@ -115,6 +115,7 @@ async def explore(tier, seed, m):
             b = await build(sg, renv, sources, log)
         finally:
             er.CustomScalar = saved_scalar
+        done_alone = []
         for di in range(ndocs):
             dg = DocGen(sg, rng)
             # no nullable variable at a non-null argument position: a null there fails ARGUMENT coercion while the source is
@@ -222,6 +223,33 @@ async def explore(tier, seed, m):
                 stats["problems"].append({"what": pr[:4], "query": q, "operation_name": opn, "variables": variables, "events": events, "kind": kind, "responses": [json.loads(json.dumps(r, default=str)) for r in resps][:4], "sdl": print_sdl(b.model), "env": renv})
             if len(stats["samples"]) < 3 and len(resps) >= 2:
                 stats["samples"].append({"query": q, "events": events, "responses": [json.loads(json.dumps(r, default=str)) for r in resps]})
+            # remembered for the interleaved run below: accepted requests with at least two events, and what each alone answered
+            if not pr and kind == "valid" and len(resps) >= 2 and not changed_vars:
+                done_alone.append((q, opn, _copy.deepcopy(pristine), [json.dumps(enc(r.get("data")), sort_keys=True) + "|" + str(len(r.get("errors") or [])) for r in resps]))
+        # INTERLEAVED CONSUMPTION: two subscriptions of this engine open at the same time, their events pulled alternately -
+        # each stream answers with ITS OWN document, variables and context
+        rng.shuffle(done_alone)
+        for (qa, oa, va, ra), (qb, ob, vb, rb) in list(zip(done_alone[0::2], done_alone[1::2]))[:6]:
+            log.clear(); b.calls.clear()
+            ga = b.engine.subscribe(qa, operation_name=oa, variables=_copy.deepcopy(va), context={"who": "a"})
+            gb = b.engine.subscribe(qb, operation_name=ob, variables=_copy.deepcopy(vb), context={"who": "b"})
+            got = {"a": [], "b": []}
+            live = {"a": ga, "b": gb}
+            try:
+                while live:
+                    for tag in list(live):
+                        try:
+                            r_ = await live[tag].__anext__()
+                            got[tag].append(json.dumps(enc(r_.get("data")), sort_keys=True) + "|" + str(len(r_.get("errors") or [])))
+                        except StopAsyncIteration:
+                            del live[tag]
+            except Exception as e:
+                stats["problems"].append({"what": [f"interleaved consumption raised {type(e).__name__}: {e}"[:300]], "queries": [qa, qb]}); continue
+            stats["evaluations"] += 1; stats["interleaved_pairs"] = stats.get("interleaved_pairs", 0) + 1
+            if got["a"] != ra or got["b"] != rb:
+                which = "first" if got["a"] != ra else "second"
+                stats["problems"].append({"what": [f"two subscriptions consumed alternately: the {which} stream's responses differ from what the same subscription answers alone"],
+                                          "queries": [qa, qb], "operation_names": [oa, ob], "variables": [va, vb], "alone": [ra, rb], "interleaved": [got["a"], got["b"]], "sdl": print_sdl(b.model)})
     return stats
 
 if __name__ == "__main__":
